@@ -8,11 +8,11 @@ package controller
 // The Controller is assembled exactly the way the repo's tests do it.
 
 import (
-	"strings"
 	"context"
 	"errors"
 	"fmt"
 	"strconv"
+	"strings"
 	"time"
 
 	"github.com/atlassian/escalator/pkg/cloudprovider"
@@ -23,8 +23,8 @@ import (
 	apierrors "k8s.io/apimachinery/pkg/api/errors"
 	"k8s.io/apimachinery/pkg/api/resource"
 	metav1 "k8s.io/apimachinery/pkg/apis/meta/v1"
-	"k8s.io/apimachinery/pkg/runtime/schema"
 	"k8s.io/apimachinery/pkg/labels"
+	"k8s.io/apimachinery/pkg/runtime/schema"
 	"k8s.io/client-go/kubernetes"
 	corev1 "k8s.io/client-go/kubernetes/typed/core/v1"
 	v1lister "k8s.io/client-go/listers/core/v1"
@@ -62,7 +62,7 @@ type vNode struct {
 	annotKey  bool // annotation key present (possibly with empty value)
 	createAge int64
 	instance  string
-	member    bool  // provider id names an instance of the group's ASG
+	member    bool // provider id names an instance of the group's ASG
 	obj       *v1.Node
 	deleted   bool
 	groupPods int // non-daemonset pods of the node's group placed on it
@@ -79,28 +79,32 @@ type vPod struct {
 }
 
 type vWorld struct {
-	unreachable map[string]bool // nodes whose GET times out at the API server (every time)
-	escEffect v1.TaintEffect // effect carried by the escalator taints already on nodes ("" = NoSchedule)
-	memUnit int64 // when > 1: symbolic pod memory comes in multiples of this many bytes
-	podLists  int    // listings of all pods (one per group and scan)
-	onPodList func() // hook run at each of them
-	J       *aws.VerifJournal
-	AS      *aws.VerifAutoScaling
-	EC2     *aws.VerifEC2
-	base    int64
-	nodes   []*vNode
-	pods    []*vPod
-	groups  []NodeGroupOptions
-	ctrl    *Controller
-	builder *aws.VerifBuilder
-	dry     bool
-	failNodeList bool
-	failPodList  bool
-	cpuPerNode int64
-	memPerNode int64
-	minTaintAge int64 // most negative taint age (seconds): a taint time in the future
-	symPodMem   bool  // pod memory requests symbolic (memory-bound workloads)
-	typedAPIErrors bool // injected Kubernetes failures may be typed (NotFound / Conflict)
+	nodeAPIDownAfter int // > 0: from the (nodeAPIDownAfter+1)-th node API call on, every node API call times out
+	nodeAPICalls     int
+	raceCordon       string // node that an operator cordons right after escalator fetched it; escalator's next write to it conflicts
+	raced, raceDone  bool
+	unreachable      map[string]bool // nodes whose GET times out at the API server (every time)
+	escEffect        v1.TaintEffect  // effect carried by the escalator taints already on nodes ("" = NoSchedule)
+	memUnit          int64           // when > 1: symbolic pod memory comes in multiples of this many bytes
+	podLists         int             // listings of all pods (one per group and scan)
+	onPodList        func()          // hook run at each of them
+	J                *aws.VerifJournal
+	AS               *aws.VerifAutoScaling
+	EC2              *aws.VerifEC2
+	base             int64
+	nodes            []*vNode
+	pods             []*vPod
+	groups           []NodeGroupOptions
+	ctrl             *Controller
+	builder          *aws.VerifBuilder
+	dry              bool
+	failNodeList     bool
+	failPodList      bool
+	cpuPerNode       int64
+	memPerNode       int64
+	minTaintAge      int64 // most negative taint age (seconds): a taint time in the future
+	symPodMem        bool  // pod memory requests symbolic (memory-bound workloads)
+	typedAPIErrors   bool  // injected Kubernetes failures may be typed (NotFound / Conflict)
 }
 
 func newWorld(failBudget int) *vWorld {
@@ -177,7 +181,7 @@ func (w *vWorld) addNode(g int, class int, cordoned bool, annot int, taintAge, c
 		obj.Annotations = map[string]string{NodeEscalatorIgnoreAnnotation: "keep"}
 		n.annotKey, n.annotated = true, true
 	case 3:
-		obj.Annotations = map[string]string{NodeEscalatorIgnoreAnnotation: "false", "other": "x"}
+		obj.Annotations = map[string]string{"cluster-autoscaler.kubernetes.io/scale-down-disabled": "false", NodeEscalatorIgnoreAnnotation: "false", "other": "x"}
 		n.annotKey, n.annotated = true, true
 	case 4:
 		obj.Annotations = map[string]string{NodeEscalatorIgnoreAnnotation: " "} // non-empty, though only a blank: protects
@@ -325,7 +329,8 @@ func (w *vWorld) apiError(api, name string, typed *apierrors.StatusError) error 
 
 func (s *vNodes) Get(ctx context.Context, name string, opts metav1.GetOptions) (*v1.Node, error) {
 	c := aws.VerifCall{Kind: "NodeGet", Node: name}
-	if s.w.unreachable[name] {
+	s.w.nodeAPICalls++
+	if s.w.unreachable[name] || (s.w.nodeAPIDownAfter > 0 && s.w.nodeAPICalls > s.w.nodeAPIDownAfter) {
 		s.w.J.Calls = append(s.w.J.Calls, c)
 		return nil, apierrors.NewServerTimeout(schema.GroupResource{Resource: "nodes"}, "get", 1)
 	}
@@ -340,7 +345,15 @@ func (s *vNodes) Get(ctx context.Context, name string, opts metav1.GetOptions) (
 	}
 	c.OK = true
 	s.w.J.Calls = append(s.w.J.Calls, c)
-	return copyNode(n.obj), nil
+	got := copyNode(n.obj)
+	if s.w.raceCordon == name && !s.w.raced {
+		// the operator's cordon lands right after this read
+		s.w.raced = true
+		cordoned := copyNode(n.obj)
+		cordoned.Spec.Unschedulable = true
+		n.obj, n.cordoned = cordoned, true
+	}
+	return got, nil
 }
 
 func (s *vNodes) Update(ctx context.Context, node *v1.Node, opts metav1.UpdateOptions) (*v1.Node, error) {
@@ -355,6 +368,16 @@ func (s *vNodes) Update(ctx context.Context, node *v1.Node, opts metav1.UpdateOp
 		case before && !after:
 			c.Kind = "NodeUntaint"
 		}
+	}
+	s.w.nodeAPICalls++
+	if s.w.nodeAPIDownAfter > 0 && s.w.nodeAPICalls > s.w.nodeAPIDownAfter {
+		s.w.J.Calls = append(s.w.J.Calls, c)
+		return nil, apierrors.NewServerTimeout(schema.GroupResource{Resource: "nodes"}, "update", 1)
+	}
+	if s.w.raceCordon == node.Name && s.w.raced && !s.w.raceDone {
+		s.w.raceDone = true // the write built on the stale read is refused
+		s.w.J.Calls = append(s.w.J.Calls, c)
+		return nil, apierrors.NewConflict(schema.GroupResource{Resource: "nodes"}, node.Name, errors.New("the object has been modified"))
 	}
 	if s.w.J.Fail("NodeUpdate") {
 		s.w.J.Calls = append(s.w.J.Calls, c)
@@ -610,6 +633,17 @@ func (w *vWorld) viaAffinity(p *vPod, on bool) {
 	p.obj = &obj
 }
 
+// terminating marks a pod as being deleted (deletion timestamp set) while it is still running.
+func (w *vWorld) terminating(p *vPod, on bool) {
+	if !on {
+		return
+	}
+	obj := *p.obj
+	ts := metav1.NewTime(time.Unix(w.base-30, 0))
+	obj.DeletionTimestamp = &ts
+	p.obj = &obj
+}
+
 // garbageValue: what an unreadable escalator taint holds in this world -- anything that is
 // not a decimal integer, including spellings other parsers would take for numbers.
 func (w *vWorld) garbageValue() string {
@@ -640,7 +674,6 @@ func (w *vWorld) setPodCPU(p *vPod, cpu int64) {
 	}}
 	p.obj = &obj
 }
-
 
 // priorScan runs an earlier, uneventful scan of the same controller before the
 // snapshot under test: every node is shown untainted, schedulable and
